@@ -1,6 +1,7 @@
 package isobmff
 
 import (
+	"github.com/evanoberholster/imagemeta/verifhook"
 	"github.com/pkg/errors"
 )
 
@@ -11,6 +12,7 @@ const maxBrandCount = 8
 //
 // This should be the first read function called.
 func (r *Reader) ReadFTYP() (err error) {
+	defer func() { verifhook.T("bmff", "ret", verifErr(err), int64(r.offset)) }()
 	b, err := r.readBox()
 	if err != nil {
 		return errors.Wrapf(err, "ReadFTYPBox")
